@@ -1164,7 +1164,10 @@ func (f *Frame) selectOp(x *ssa.Select, st *State) Value {
 		lo = -1
 	}
 	u.assume(st.reach, bvInRange(bv64(lo), idx, bv64(int64(len(x.States)-1))))
-	selExtra := map[string]Value{"index": {T: idx, Ty: types.Typ[types.Int]}}
+	selExtra := map[string]Value{"index": {T: idx, Ty: types.Typ[types.Int]}, "blocking": {T: tFalse, Ty: types.Typ[types.Bool]}}
+	if x.Blocking {
+		selExtra["blocking"] = Value{T: tTrue, Ty: types.Typ[types.Bool]}
+	}
 	for i, sst := range x.States {
 		selExtra[fmt.Sprintf("chan%d", i)] = f.val(sst.Chan)
 	}
